@@ -14,80 +14,104 @@ Definition s_base (r : rule) : Z :=
   | None => match r_freq r with Weekly => -3 | _ => 0 end
   end.
 
-(* ---- periods: a numbering of the days / Monday-based weeks / months / years ---- *)
-Definition period_of (f : freq) (d : Z) : Z :=
+(* ---- periods: a numbering of the days / Monday-based weeks / months / years ----
+   a date is handled together with its calendar fields: c = (day number, year, month, day) *)
+Definition period_of (f : freq) (c : cdate) : Z :=
+  let '(d, y, m, _) := c in
   match f with
   | Daily => d
   | Weekly => (d + 3) / 7                         (* day -3 is a Monday *)
-  | Monthly => year_of d * 12 + month_of d - 1
-  | Yearly => year_of d
+  | Monthly => y * 12 + m - 1
+  | Yearly => y
   end.
 
-(* the dates of the period containing d, ascending *)
-Definition period_dates (f : freq) (d : Z) : list Z :=
+(* the dates of the period containing c, ascending *)
+Definition period_dates (f : freq) (c : cdate) : list cdate :=
+  let '(d, y, m, _) := c in
   match f with
-  | Daily => [d]
-  | Weekly => zseq (d - weekday d) 7
-  | Monthly => zseq (days_from_civil (year_of d) (month_of d) 1) (dim (year_of d) (month_of d))
-  | Yearly => zseq (days_from_civil (year_of d) 1 1) (diy (year_of d))
+  | Daily => [c]
+  | Weekly => cdates (d - weekday d) 7
+  | Monthly => cdates (days_from_civil y m 1) (dim y m)
+  | Yearly => cdates (days_from_civil y 1 1) (diy y)
   end.
 
-(* INTERVAL: every interval-th period counted from the base date's period, in both directions *)
-Definition in_phase (r : rule) (d : Z) : bool :=
-  (period_of (r_freq r) d - period_of (r_freq r) (s_base r)) mod r_interval r =? 0.
+(* ---- the series of a rule: its parts with RFC 5545's defaults taken from the base date ---- *)
+Record series := mkSeries {
+  e_freq : freq;
+  e_interval : Z;
+  e_base_period : Z;                  (* period_of the base date *)
+  e_bymonth : list Z;                 (* [] = any month *)
+  e_bymonthday : list Z;              (* [] = any day of the month *)
+  e_byday : list (Z * option Z);      (* [] = any weekday *)
+  e_nth_in_year : bool;               (* an n-th weekday counts within the year, not the month *)
+  e_bysetpos : list Z }.
 
-(* ---- BYxxx parts, with RFC 5545's defaults taken from the base date ---- *)
 Definition no_day_rule (r : rule) : bool := is_nil (r_byweekday r) && is_nil (r_bymonthday r).
 
-Definition s_bymonth (r : rule) : list Z :=
-  if no_day_rule r && freq_eqb (r_freq r) Yearly && is_nil (r_bymonth r)
-  then [month_of (s_base r)] else r_bymonth r.
-Definition s_bymonthday (r : rule) : list Z :=
-  if no_day_rule r && (freq_eqb (r_freq r) Yearly || freq_eqb (r_freq r) Monthly)
-  then [day_of (s_base r)] else r_bymonthday r.
-Definition s_byday (r : rule) : list (Z * option Z) :=
-  if no_day_rule r && freq_eqb (r_freq r) Weekly then [(weekday (s_base r), None)] else r_byweekday r.
+Definition series_of (r : rule) : series :=
+  let base := s_base r in
+  let f := r_freq r in
+  mkSeries f (r_interval r) (period_of f (cdate_of base))
+    (if no_day_rule r && freq_eqb f Yearly && is_nil (r_bymonth r) then [month_of base] else r_bymonth r)
+    (if no_day_rule r && (freq_eqb f Yearly || freq_eqb f Monthly) then [day_of base] else r_bymonthday r)
+    (if no_day_rule r && freq_eqb f Weekly then [(weekday base, None)] else r_byweekday r)
+    (freq_eqb f Yearly && is_nil (r_bymonth r))
+    (r_bysetpos r).
 
-(* d is the n-th (n > 0: from the start, n < 0: from the end) day of its weekday among the
-   [len] days of which it is day number k (1-based) *)
+(* INTERVAL: every interval-th period counted from the base date's period, in both directions *)
+Definition in_phase (s : series) (c : cdate) : bool :=
+  (period_of (e_freq s) c - e_base_period s) mod e_interval s =? 0.
+
+(* day number k (1-based) of [len] days is the n-th (n > 0: from the start, n < 0: from the end)
+   of its weekday among them *)
 Definition is_nth (k len n : Z) : bool :=
   if 0 <? n then (k - 1) / 7 + 1 =? n else (len - k) / 7 + 1 =? - n.
 
-(* BYDAY entry (wd, n): n counts within the month (MONTHLY, or YEARLY with BYMONTH), within the
-   year (YEARLY without BYMONTH); it has no meaning for WEEKLY / DAILY rules and is ignored *)
-Definition byday_entry_ok (r : rule) (d : Z) (e : Z * option Z) : bool :=
+(* BYDAY entry (wd, n) for date d = (y, m, dd): n counts within the month (MONTHLY, or YEARLY with
+   BYMONTH) or within the year (YEARLY without BYMONTH); it has no meaning for WEEKLY / DAILY rules
+   and is ignored there *)
+Definition byday_entry_ok (s : series) (d y m dd : Z) (e : Z * option Z) : bool :=
   (weekday d =? fst e) &&
   match snd e with
   | None => true
   | Some n =>
     if n =? 0 then true else
-    match r_freq r with
+    match e_freq s with
     | Daily | Weekly => true
-    | Monthly => is_nth (day_of d) (dim (year_of d) (month_of d)) n
-    | Yearly =>
-      if is_nil (r_bymonth r)
-      then is_nth (d - days_from_civil (year_of d) 1 1 + 1) (diy (year_of d)) n
-      else is_nth (day_of d) (dim (year_of d) (month_of d)) n
+    | _ => if e_nth_in_year s then is_nth (d - days_from_civil y 1 1 + 1) (diy y) n
+           else is_nth dd (dim y m) n
     end
   end.
 
-Definition monthday_entry_ok (d : Z) (e : Z) : bool :=
-  if 0 <? e then day_of d =? e else day_of d =? dim (year_of d) (month_of d) + 1 + e.
+(* BYMONTHDAY entry: e > 0 the e-th day, e < 0 the |e|-th last day of the month *)
+Definition monthday_entry_ok (y m dd : Z) (e : Z) : bool :=
+  if 0 <? e then dd =? e else dd =? dim y m + 1 + e.
 
-Definition filters_ok (r : rule) (d : Z) : bool :=
-  (is_nil (s_bymonth r) || zmem (month_of d) (s_bymonth r)) &&
-  (is_nil (s_byday r) || existsb (byday_entry_ok r d) (s_byday r)) &&
-  (is_nil (s_bymonthday r) || existsb (monthday_entry_ok d) (s_bymonthday r)).
+(* a BYDAY list is a union of its entries, a BYMONTHDAY list of its *)
+Definition filters_ok (s : series) (c : cdate) : bool :=
+  let '(d, y, m, dd) := c in
+  (is_nil (e_bymonth s) || zmem m (e_bymonth s)) &&
+  (is_nil (e_byday s) || existsb (byday_entry_ok s d y m dd) (e_byday s)) &&
+  (is_nil (e_bymonthday s) || existsb (monthday_entry_ok y m dd) (e_bymonthday s)).
 
 (* BYSETPOS: d is the p-th (p > 0) / |p|-th last (p < 0) of its period's dates passing the filters *)
-Definition setpos_ok (r : rule) (d : Z) : bool :=
-  is_nil (r_bysetpos r) ||
-  let cand := filter (filters_ok r) (period_dates (r_freq r) d) in
+Definition setpos_ok (s : series) (c : cdate) : bool :=
+  if is_nil (e_bysetpos s) then true else
+  let d := cd_day c in
+  let cand := map cd_day (filter (filters_ok s) (period_dates (e_freq s) c)) in
   let n := Z.of_nat (length cand) in
   existsb (fun p => let i := if 0 <? p then p - 1 else n + p in
-                    (0 <=? i) && (nth (Z.to_nat i) cand (d - 1) =? d)) (r_bysetpos r).
+                    (0 <=? i) && (nth (Z.to_nat i) cand (d - 1) =? d)) (e_bysetpos s).
 
-Definition matches (r : rule) (d : Z) : bool := in_phase r d && filters_ok r d && setpos_ok r d.
+(* (written with "if" rather than && so that evaluation stops at the first failing test) *)
+Definition matches_s (s : series) (c : cdate) : bool :=
+  if in_phase s c then (if filters_ok s c then setpos_ok s c else false) else false.
+
+Definition matches (r : rule) (d : Z) : bool := matches_s (series_of r) (cdate_of d).
+
+(* the matching dates among lo, lo+1, ..., lo+n-1 *)
+Definition matching_dates (r : rule) (lo n : Z) : list Z :=
+  let s := series_of r in map cd_day (filter (matches_s s) (cdates lo n)).
 
 (* ---- the occurrence of local date d ---- *)
 (* starts when the local clock shows (d, start_seconds) — if a DST gap swallows that reading,
@@ -107,4 +131,4 @@ Definition spec_occurrences (r : rule) (a b : Z) : list ivl :=
   let lo := wall_day (utc_to_wall z a) - (r_dur r / DAY + 2) in
   let hi := wall_day (utc_to_wall z b) + 1 in
   filter (fun i => (a <? fend i) && (fstart i <=? b) && negb (zmem (fstart i) (r_exdates r)))
-         (map (occurrence r) (filter (matches r) (zseq lo (hi - lo + 1)))).
+         (map (occurrence r) (matching_dates r lo (hi - lo + 1))).
